@@ -1,3 +1,102 @@
-(* Props/C12.v — placeholder while the model is being validated (replaced below). *)
-From AP Require Import Base.Str Model.Render.
-Theorem C12_placeholder : run [] [] = Ok []. Proof. reflexivity. Qed.
+(* Props/C12.v — Rendering is deterministic, follows the documented mapping, refuses conflicts.
+   Statements only; proofs in Proofs/RenderP.v (+ RenderOrderP.v, RenderSpecP.v).
+
+   Model: Model/Render.v.  [render c e profile filter] is Engine::desired_state: select_modules
+   (stable sort by id), selected_targets, the six adapters producing, in the order of the Rust code,
+   a list of steps ([Emit] = one insert_desired_file call, [Fail] = a materialisation error) and the
+   roots, [run] = the inserts into the (target, path) map, dedup_roots.  Keys compare paths by
+   COMPONENTS (Rust's Path equality), contents are bytes. *)
+From AP Require Import Base.Str Base.PathR Base.Sorting Model.Render Proofs.RenderP.
+From Coq Require Import Sorting.Permutation.
+Open Scope N_scope.
+
+(* Order independence: any permutation of the manifest's module list (distinct ids -- which
+   validate_manifest enforces) renders to the IDENTICAL result: same desired map, same roots, or the
+   same error.  (Sorted permutations with distinct keys are equal.) *)
+Theorem C12_perm : forall c ms' e prof filt,
+  Permutation (c_modules c) ms' -> NoDup (map m_id (c_modules c)) ->
+  render (with_modules c ms') e prof filt = render c e prof filt /\
+  plan_desired (with_modules c ms') e prof filt = plan_desired c e prof filt.
+Proof. intros. split; [apply render_perm|apply plan_desired_perm]; assumption. Qed.
+Print Assumptions C12_perm.
+
+(* Conflict iff: when every reached module tree is valid (no [Fail] step), rendering fails with
+   E_DESIRED_STATE_CONFLICT exactly when two inserts address the same (target, path) with different
+   bytes.  The right-hand side is symmetric in the two inserts and does not mention their order. *)
+Theorem C12_conflict_iff : forall c e prof filt ms ts,
+  select_modules c prof = Some ms -> selected_targets c filt = Ok ts ->
+  no_fail (all_steps e ms ts) ->
+  (render c e prof filt = Err EConflict <->
+   exists a b, In (Emit a) (all_steps e ms ts) /\ In (Emit b) (all_steps e ms ts) /\
+               e_key a = e_key b /\ e_bytes a <> e_bytes b).
+Proof. exact conflict_iff. Qed.
+Print Assumptions C12_conflict_iff.
+
+(* Without any validity hypothesis: a successful render never hides a conflict (and reached no
+   invalid module), i.e. two differing outputs for one path can never both be "accepted". *)
+Theorem C12_ok_no_conflict : forall c e prof filt ms ts D R,
+  select_modules c prof = Some ms -> selected_targets c filt = Ok ts ->
+  render c e prof filt = Ok (D, R) ->
+  no_fail (all_steps e ms ts) /\
+  ~ (exists a b, In (Emit a) (all_steps e ms ts) /\ In (Emit b) (all_steps e ms ts) /\
+                 e_key a = e_key b /\ e_bytes a <> e_bytes b).
+Proof.
+  intros c e prof filt ms ts D R H1 H2 H3. destruct (ok_no_conflict _ _ _ _ _ _ _ _ H1 H2 H3) as [A [B _]].
+  split; assumption.
+Qed.
+Print Assumptions C12_ok_no_conflict.
+
+(* Merge: the desired map has one entry per key; if two inserts (at different positions of the
+   insert sequence) address one key, their bytes are equal and the single entry carries those bytes
+   and module_ids = the strictly sorted (hence duplicate-free) union of the ids of ALL inserts for
+   that key. *)
+Theorem C12_merge : forall c e prof filt ms ts D R,
+  select_modules c prof = Some ms -> selected_targets c filt = Ok ts ->
+  render c e prof filt = Ok (D, R) ->
+  NoDup (map d_key D) /\
+  forall a b l1 l2 l3, emits_of (all_steps e ms ts) = l1 ++ a :: l2 ++ b :: l3 -> e_key a = e_key b ->
+    e_bytes a = e_bytes b /\
+    exists x, In x D /\ d_key x = e_key a /\ d_bytes x = e_bytes a /\ ssorted (d_ids x) /\
+              forall i, In i (d_ids x) <->
+                        exists em, In (Emit em) (all_steps e ms ts) /\ e_key em = e_key a /\ In i (e_ids em).
+Proof. exact merge_thm. Qed.
+Print Assumptions C12_merge.
+
+(* ---------- non-vacuity ---------- *)
+
+Definition x_env : env := mkEnv (s "/h") (s "/p") None.
+Definition x_prompt (id : str) (b : list N) : module :=
+  mkModule id TPrompt true [s "a"] [] [mkFile [s "hello.md"] b true] true (s "0000000000").
+Definition x_instr (id : str) (b : list N) : module :=
+  mkModule id TInstructions true [s "a"] [] [mkFile [s "AGENTS.md"] b true] true (s "0000000000").
+Definition x_cfg (ms : list module) : cfg :=
+  mkCfg 1 [mkProfile (s "default") [s "a"] [] []] [mkTcfg (s "codex") SUser []; mkTcfg (s "vscode") SProject []] ms.
+
+(* two prompts with the same file name: different bytes -> conflict, in both module orders;
+   equal bytes -> one entry per target path with both ids, sorted *)
+Example C12_conflict_both_orders :
+  render (x_cfg [x_prompt (s "prompt:a") [1]; x_prompt (s "prompt:b") [2]]) x_env (s "default") (s "all") = Err EConflict /\
+  render (x_cfg [x_prompt (s "prompt:b") [2]; x_prompt (s "prompt:a") [1]]) x_env (s "default") (s "all") = Err EConflict.
+Proof. vm_compute. split; reflexivity. Qed.
+
+Example C12_merge_example :
+  match render (x_cfg [x_prompt (s "prompt:b") [7]; x_prompt (s "prompt:a") [7]]) x_env (s "default") (s "all") with
+  | Ok (D, _) => map (fun x => (fst (d_key x), d_bytes x, d_ids x)) D =
+                 [ (s "codex", [7], [s "prompt:a"; s "prompt:b"]); (s "vscode", [7], [s "prompt:a"; s "prompt:b"]) ]
+  | Err _ => False
+  end.
+Proof. vm_compute. reflexivity. Qed.
+
+(* aggregated instructions: two modules -> marked sections in id order, whatever the manifest order *)
+Example C12_perm_example :
+  let ms := [x_instr (s "instructions:b") [66; 10]; x_instr (s "instructions:a") [65]] in
+  render (x_cfg (rev ms)) x_env (s "default") (s "codex") = render (x_cfg ms) x_env (s "default") (s "codex") /\
+  match render (x_cfg ms) x_env (s "default") (s "codex") with
+  | Ok ([x], _) => d_ids x = [s "instructions:a"; s "instructions:b"] /\
+                   d_bytes x = utf8_encode (s "<!-- agentpack:module=instructions:a -->") ++ [10; 65; 10] ++
+                               utf8_encode (s "<!-- /agentpack -->") ++ [10; 10; 45; 45; 45; 10; 10] ++
+                               utf8_encode (s "<!-- agentpack:module=instructions:b -->") ++ [10; 66; 10] ++
+                               utf8_encode (s "<!-- /agentpack -->")
+  | _ => False
+  end.
+Proof. vm_compute. repeat split; reflexivity. Qed.
